@@ -54,6 +54,13 @@ def payloads(rng, tier):
     for fn in {"quick": ["bit_to_number", "encode"], "thorough": ["bit_to_number", "encode", "encode_fast", "bit_to_number", "encode"],
                "search": ["bit_to_number", "encode"]}[tier]:
         yield "verbose_pair", {"fn": fn, "L": rng.choice([2200, 2400, 2600]), "k": 1, "seed": rng.randrange(1 << 30)}
+    # the progress printer itself (it is not part of the regenerated model: its calls are evaluated and dropped): every way the
+    # library calls it -- (current, total) with 1 <= current <= total, optional extra dict -- at small, boundary and large sizes,
+    # as a fresh object and as one re-used across a whole count-up
+    for _ in range({"quick": 6, "thorough": 60, "search": 6}[tier]):
+        total = rng.choice([1, 2, 3, 4, 5, 7, 16, 19, 20, 21, 64, 99, 100, 101, 256, 999, 1000, 1001, 4 ** 5, 4 ** 8, 10 ** 6,
+                            rng.randrange(1, 10 ** 7), 4 ** rng.randint(1, 12), 10 ** rng.randint(1, 12)])
+        yield "progress", {"total": total, "seed": rng.randrange(1 << 30)}
 
 
 def snapshot(objs):
@@ -345,9 +352,56 @@ def build_verbose_pair(stream, p):
     return case
 
 
+def build_progress(stream, p):
+    """Monitor.__call__ never raises, returns None, prints one line that ends the count at `total`, and touches nothing else"""
+    import contextlib
+    import io
+    import random as pyrandom
+    total = p["total"]
+
+    def run():
+        r = pyrandom.Random(p["seed"])
+        problems = []
+        points = sorted(set([1, total] + [min(total, max(1, x)) for x in (2, 3, total // 2, total - 1, total // 20, total // 20 + 1,
+                                                                         total * 19 // 20, r.randrange(1, total + 1),
+                                                                         r.randrange(1, total + 1))]))
+        extras = [None, {"largest eigenvalue": "%.5f" % 1.25, "error": "%.5f" % 0.5}, {"capacity": "%.5f" % 0.0}]
+        shared = dsw.Monitor()
+        for cur in points:
+            for mon, label in ((dsw.Monitor(), "fresh"), (shared, "shared")):
+                for extra in (r.sample(extras, 2) if label == "fresh" else [None]):
+                    buf = io.StringIO()
+                    before = repr(extra)
+                    try:
+                        with contextlib.redirect_stdout(buf):
+                            out = mon(cur, total) if extra is None else mon(cur, total, extra=extra)
+                    except BaseException as e:  # noqa
+                        problems.append("Monitor()(%d, %d, extra=%r) [%s] raised %r" % (cur, total, extra, label, e))
+                        continue
+                    text = buf.getvalue()
+                    if out is not None:
+                        problems.append("Monitor()(%d, %d) returned %r" % (cur, total, out))
+                    if repr(extra) != before:
+                        problems.append("Monitor()(%d, %d, extra=..) changed its extra argument" % (cur, total))
+                    if ("(%s/%d)" % (str(cur).rjust(len(str(total))), total)) not in text:
+                        problems.append("Monitor()(%d, %d) did not print the state (%r)" % (cur, total, text[-80:]))
+                    if (cur == total) != text.endswith("\n"):
+                        problems.append("Monitor()(%d, %d): line %s terminated" % (cur, total, "not" if cur == total else "wrongly"))
+        return problems
+    impl = lambda: guard(run, lambda r: [[len(r)]], seconds=120)
+
+    def oracle(ans, raw):
+        if isinstance(raw, BaseException):
+            return "progress printer check raised %r" % (raw,)
+        return raw[0] if raw else None
+    return Case(stream, p, None, impl, oracle, domain=True, nontrivial=True, tags=["progress"])
+
+
 def build(stream, p):
     if stream == "verbose_pair":
         return build_verbose_pair(stream, p)
+    if stream == "progress":
+        return build_progress(stream, p)
     box = {}
 
     def run():
